@@ -915,8 +915,22 @@ impl<T: Serialize> Serialize for Rewrap<T> {
     }
 }
 
+/// A `Serialize` impl that carries on whatever the serializer answers for an element ("best effort").
+struct BestEffort(Vec<i64>);
+impl Serialize for BestEffort {
+    fn serialize<S: serde::Serializer>(&self, s: S) -> Result<S::Ok, S::Error> {
+        use serde::ser::SerializeSeq;
+        let mut seq = s.serialize_seq(Some(self.0.len()))?;
+        for x in &self.0 {
+            let _ = seq.serialize_element(x);
+        }
+        seq.end()
+    }
+}
+
 #[derive(Serialize)]
 struct Rich {
+    best_effort: BestEffort,
     rewrapped: Rewrap<Vec<String>>,
     c: serde_saphyr::Commented<i64>,
     f: serde_saphyr::FlowSeq<Vec<i64>>,
@@ -958,6 +972,7 @@ fn build_rich(seed: &RichSeed) -> Rich {
     let mut nm = std::collections::BTreeMap::new();
     nm.insert(w(4), vec![RichInner { k: w(5), v: -0.0, opt: None }, RichInner { k: "q".into(), v: 2.0, opt: Some(false) }]);
     Rich {
+        best_effort: BestEffort(vec![1, seed.n, 3, 4]),
         rewrapped: Rewrap(vec![w(1), w(2)]),
         c: Commented(seed.n, w(6)),
         f: FlowSeq(vec![1, seed.n, 3]),
